@@ -18,13 +18,18 @@
 //!          px=<pixels() sequence, in iteration order>
 //!
 //! Oracle (the property texts as predicates on the real results). Lean statements mirrored:
-//!   C05 `rrect_points_eq_filter_contains`, `rrect_contains_inside_bbox`;
-//!   C18 `confine_fits`, `confine_noop`, `confine_le`, `zero_radii_eq_rectangle`, `half_radii_eq_ellipse`,
-//!       `rrect_rows_contiguous`, corner membership = ideal quarter ellipse (doubled integer coordinates:
-//!       pixel centre `2p + 1`, ellipse centre `2 * inner box corner`, semi-axes `2 r`), exactly where
-//!       the code uses the ellipse equation and within half a pixel (semi-axes `2r +- 1`) always;
-//!   C06 `stroke_width_split`, `rrect_offset_*`, `styled_rrect_exact`;
-//!   C01 `styled_rrect_pixels_eq_draw` (R1 map == R2 map == pixels() map).
+//!   C05 `rrect_points_eq_filter_contains`, `rrect_contains_inside_bbox`, `rrect_points_nodup`,
+//!       `rrect_points_row_major` (EG/Props/C05/RoundedRect.lean);
+//!   C18 `confine_fits` (all radii, also pair sums above u32::MAX), `confine_noop`, `confine_le`,
+//!       `zero_radii_eq_rectangle`, `half_radii_eq_ellipse`, `rrect_rows_contiguous`,
+//!       `rrect_columns_contiguous`, `rrect_straight_part_full`, `rrect_contains_corners`,
+//!       `corner_contains_iff_ideal_ellipse/_circle/_small_circle`: corner membership = ideal quarter
+//!       ellipse in doubled integer coordinates (pixel centre `2p + 1`, ellipse centre `2 * inner box
+//!       corner`, semi-axes `2 r`), exactly where the code uses the ellipse equation, and within half a
+//!       pixel (semi-axes `2r +- 1`: the fixed band metric of this oracle) always;
+//!   C06 `rrect_offset_geometry`, `styled_rrect_exact_partial` (+ `FillInStroke`, which is unproved for
+//!       non-zero widths and therefore checked here: class `C06:rrect-fill-area-not-inside-stroke-area`);
+//!   C01 `styled_rrect_pixels_eq_draw_stroked/_partial` (R1 map == R2 map == pixels() map).
 use crate::common::*;
 use embedded_graphics::{
     pixelcolor::Rgb565,
